@@ -81,6 +81,11 @@ CHECKS = {
    note="The race detector only judges schedules that occur; snapshots cover the 19 registered shared objects (unregistered package-level tables are listed in the evidence and covered by the race run only). Features: nil, bool, builtins, iota, blank, range over enumerator, operators, import, paren rewrite, builtin-type methods, closures, literals. Trusted: TLC, Go race detector.",
    technique="TLA+ access-set model with interleavings (TLC exhaustive) + snapshot comparison per feature + race-detector runs of every enumerated program tuple",
    design_ref="DESIGN.md section 5 C18"),
+ "C17": dict(level="exploration",
+   text="Total.tla contributes the complete cross product operation (44 builder operations) x operand classes (33: typed variables of every kind, untyped constants, nil, constants of 2^40 / 2^63 / 2^64 / 2^100 / 10^4 digits, a type, a reference, a multi-value call, a call without value) x configuration (default, recorder, NoSkipConstant) with the only prediction Outcome in {ok, reported}. Every point (25k in quick, 46k in thorough) is executed on the real CodeBuilder in isolated worker processes with a 6 GB address-space limit and a 20 s deadline per operation; a recovered runtime.Error, a foreign panic (go/constant, math/big), a deadline miss, memory exhaustion or worker death (confirmed by re-running the point alone) is a fault. The expression points of Ops.tla feed the same classification.",
+   note="Exploration level: the specification enumerates the operand-class cross product, it does not predict values; time and memory are monitored, not modelled. Known findings are exact class-key sets per root cause (known/KF-C17-*.keys). Deep nesting is covered by C16's simulated histories, not here. Trusted: TLC (as enumerator), the OS resource limits.",
+   technique="TLA+ cross-product enumeration (TLC) + isolated-worker execution with resource monitors",
+   design_ref="DESIGN.md section 5 C17"),
 }
 
 def sh(cmd):
